@@ -46,6 +46,18 @@ CHECKS = {
  'C03': ('E1+E2', 'metamorphic enumeration: every base structure x relation menu (shift-and-wrap, permutation, pattern motion, hint forms, draw answers, supercells), generated and real MOF files',
          '792 (quick) / 4752 (thorough) base structures x 4/10 shifts, permutations (all n! for <=5 atoms), 3/8 pattern motions, every valid hint form for patterns <=4/5 atoms, every draw answer within the bound, supercells ({1,2,3}^3 for <=6 atoms in thorough); plus uio66, uio66-triclinic, hkust-1 with linker / benzene / metal-centre / single-atom patterns. Canonical match sets may differ only in groups that are GRAY by their measured deviation; supercell counts exactly a*b*c per occurrence.',
          'Differences are excused only when c*eps > 0.8 atol for the measured Kabsch deviation eps (binding for all exact and low-noise copies). Trusted: numpy.', '3/C03, 2'),
+ 'C04': ('E1+E2', 'bounded-exhaustive enumeration of (cell, pattern, pose, placement, pattern pair, replace_all, fraction, copies) with every random.sample / tie-break answer; oracle driven by the recorded matches',
+         '6 cells x 6 (thorough 8) patterns x poses x placements x 7 (search, replacement) pairs (empty, subset, one/all elements changed, grown, identical, disjoint larger) x replace_all, plus 2-4 planted copies x 6 fractions; every draw answer within the deviation bound. Replaced count within 1/2 of f*M and equal to the returned count, replaced = sampled matches, bystanders bit-identical, retained atoms in place, inserted atoms with the pattern\'s element/charge/group, per-element count identity, inputs untouched.',
+         'Matches are recorded at the module seam mofun.mofun.find_pattern_in_structure. Planted copies are disjoint. Positions of inserted atoms are C05\'s business.', '3/C04'),
+ 'C05': ('E1+E2', 'bounded-exhaustive enumeration of inserting replacements in all cell shapes with a Kabsch rigid-image oracle modulo the lattice, plus the joint-motion relation',
+         '6 cells (both tilt signs, arbitrarily oriented) x 9 patterns (symmetric and collinear included) x poses x boundary placements x 4 inserting pairs x replace_all, 2-3 copies; per replaced match the matched + inserted atoms must be one proper rigid image of search + replacement coordinates within c\'*eps + 1e-6 with inserted atoms taken at the lattice image nearest the prediction; fractional coordinates in [0,1]; 3/6 joint rigid motions of both patterns give the same structure mod lattice.',
+         'Coverage over the finite menus. For one-atom / collinear search patterns the rotation about the axis is free, so only the rigid-image clause applies to them.', '3/C05'),
+ 'C07': ('E1+E2', 'exhaustive enumeration of overlap configurations x pattern pairs x flags with the full draw tree; oracle computed from the recorded matches',
+         '6 structures whose occurrences share atoms (chains, star, homonuclear chains, control) x 3 search patterns x 7 replacements (shared atom retained by both / removed by one / by both; empty; larger) x 3 placements (interior, across a face, across a corner) x cells x replace_all x ignore flag x fractions {1/2, 1}, every sample subset and tie-break answer (unbounded). AtomsShouldNotBeDeletedTwice iff an atom is in two selected deletion sets, the replacement is non-empty and the flag is off; otherwise atom-count identity.',
+         'Exhaustive over the stated small space (quick: 2 cells, 1-2 poses; thorough: 3 cells, 4 poses).', '3/C07'),
+ 'C08': ('E3 state graph', 'depth-2 operation histories {replace(P,P), replace(A,B), replace(B,A), search(A)} over generated structures with terms, every draw answer of both steps; real MOF files',
+         '6 cells x 7 patterns x poses x placements x 4 history variants x 1-2 copies, structures carry symmetric-consistent bonds/angles/dihedrals inside and across matches; identity replacement leaves atom sequence and term tuple sets unchanged; A->B->A restores the (element, position mod lattice) multiset; after A->B a search for A finds nothing; uio66 / uio66-triclinic / hkust-1 identity and Zr->Hf->Zr.',
+         'Default replace mode (replace_all=False). Real-file patterns are used bare (their own bonds would rightly be added).', '3/C08'),
 }
 
 NOT_YET = {}
